@@ -104,6 +104,28 @@ def reinit_script(rng, i, variant):
     return g.script(), meta
 
 
+def forged_successor_script(rng, i):
+    """Somebody who was never in the old group (but claims the identity of an old member)
+    creates an ordinary group with the announced group id and invites a real member with its
+    successor key package: without the old group's resumption secret this must not be joinable."""
+    names = ["A", "B", "C"]
+    members = [{"name": n} for n in names] + [{"name": "M", "identity_name": "A"}]
+    gid = "cd%04x" % i
+    ops = [{"op": "create", "who": "A"}, {"op": "kp", "who": "B", "id": "kB"}, {"op": "kp", "who": "C", "id": "kC"},
+           {"op": "commit", "who": "A", "id": "c0", "add": ["kB", "kC"]}, {"op": "apply", "who": "A"}, {"op": "join", "who": "B", "welcome_any": "c0"}, {"op": "join", "who": "C", "welcome_any": "c0"},
+           {"op": "opts", "who": "A", "encrypt_controls": False},
+           {"op": "commit", "who": "A", "id": "cr", "reinit": True, "new_gid": gid}, {"op": "deliver", "to": "B", "msg": "cr"}, {"op": "deliver", "to": "C", "msg": "cr"}, {"op": "apply", "who": "A"},
+           {"op": "reinit_kp", "who": "B", "id": "rkB"}, {"op": "reinit_kp", "who": "C", "id": "rkC"},
+           {"op": "create", "who": "M", "gid": gid},
+           {"op": "opts", "who": "M", "tree_ext": True, "single_welcome": True},
+           {"op": "commit", "who": "M", "id": "cm", "add": ["rkB", "rkC"]}, {"op": "apply", "who": "M"}]
+    checks = []
+    for n in ("B", "C"):
+        ops.append({"op": "reinit_join", "who": n, "welcome_any": "cm"})
+        checks.append(len(ops) - 1)
+    return {"name": f"c17-forged{i}", "suite": 1, "members": members, "ops": ops}, checks
+
+
 def branch_script(rng, i, variant):
     g = old_group(rng, i, f"c17-b{i}-{variant}")
     ops = g.ops
@@ -168,8 +190,20 @@ def main(run, args):
             items.append(("reinit",) + reinit_script(rng, i * 10 + VARIANTS.index(v), v))
         for v in ("equal", "subset", "superset"):
             items.append(("branch",) + branch_script(rng, i * 10 + 5 + ("equal", "subset", "superset").index(v), v))
-    recs = run_scripts([x[1] for x in items], timeout=3000)
+    forged = [forged_successor_script(rng, i) for i in range(2 if quick else 8)]
+    recs_all = run_scripts([x[1] for x in items] + [x[0] for x in forged], timeout=3000)
+    recs = recs_all[:len(items)]
     failing, cases = [], []
+    for (sc, checks), rs in zip(forged, recs_all[len(items):]):
+        byi = {r["i"]: r for r in rs if "i" in r}
+        pre = [r for r in rs if r.get("ok") is False and r["i"] not in checks]
+        if pre:
+            failing.append({"what": "forged-successor scenario failed before the point of interest", "script": sc["name"], "record": pre[0], "op": sc["ops"][pre[0]["i"]]})
+            continue
+        for k in checks:
+            r = byi.get(k, {})
+            if r.get("ok") is not False:
+                failing.append({"what": "a member joined a 'successor' group that was created WITHOUT the old group's resumption secret (no link to the old group)", "script": sc["name"], "op": sc["ops"][k]})
     stats = {"creations": 0, "accepted": 0, "refused": 0, "joins": 0, "intruders": 0, "old_trees_with_blank": 0, "frozen_checks": 0}
     for (kind, sc, meta), rs in zip(items, recs):
         if any(r.get("crash") for r in rs):
